@@ -1078,6 +1078,21 @@ def glyphset_ops(draw):
         k = draw(st.sampled_from(["write", "write", "write", "rewrite", "delete", "reopen", "contents"]))
         if k == "write":
             nm = draw(_one_name(names))
+            if names and draw(st.booleans()):
+                # a name that wants the file name of an earlier glyph (ignoring case)
+                base = draw(st.sampled_from(names))
+                cands = [
+                    "".join(c.lower() + "_" if c != c.lower() else c for c in base),
+                    "".join({"/": ":", ":": "*", "*": "?", "?": "/", "(": "[", "[": "("}.get(c, c) for c in base),
+                    base[:250] + "x" * 10 if len(base) > 255 else base,
+                ]
+                for i, c in enumerate(base):
+                    if c == "_" and i > 0 and base[i - 1].isalpha() and base[i - 1] == base[i - 1].lower() and base[i - 1].upper() != base[i - 1]:
+                        cands.append(base[: i - 1] + base[i - 1].upper() + base[i + 1 :])
+                        break
+                cands = [c for c in cands if c != base and c not in names]
+                if cands:
+                    nm = draw(st.sampled_from(cands))
             names.append(nm)
             ops.append(["write", nm])
         elif k in ("rewrite", "delete") and names:
